@@ -380,8 +380,13 @@ func MonitorC13(p xfer.Params, ex *world.Exec, v *xfer.Verdict) {
 			}
 			continue
 		}
-		// (iii) a first transmission takes the next sequence number
-		if s.Seq != next[k] {
+		// (iii) a first transmission takes the next sequence number. At teardown numbers may be
+		// assigned to close requests that are discarded unsent (Close empties the send queue
+		// once anything later went out, e.g. the response to the peer's simultaneous close
+		// request): a close segment may therefore skip numbers, which then never appear; it
+		// may not go back, and no data segment may follow a gap.
+		isClose := s.Proto == refwire.CloseSessionRequest || s.Proto == refwire.CloseSessionResponse
+		if s.Seq != next[k] && !(isClose && s.Seq > next[k]) {
 			v.Add("sequence-gap-or-reuse", "session %d %s: first transmission of %v has sequence number %d, expected %d", s.SessionID, dirName(r.C2S), s, s.Seq, next[k])
 			return
 		}
